@@ -25,6 +25,7 @@ type Flow struct {
 	// Expand, when set, rewrites a branch condition before it is split into
 	// atoms (used to inline one-line predicate helpers).
 	Expand func(ast.Expr) ast.Expr
+	memo   map[ast.Expr]ast.Expr
 }
 
 // Inlining makes the flow see through one-line predicate helpers of package
@@ -45,10 +46,18 @@ func (f *Flow) both(e ast.Expr, val bool) []cfgq.Fact {
 }
 
 func (f *Flow) expand(e ast.Expr) ast.Expr {
-	if f.Expand != nil {
-		return f.Expand(e)
+	if f.Expand == nil {
+		return e
 	}
-	return e
+	if f.memo == nil {
+		f.memo = map[ast.Expr]ast.Expr{}
+	}
+	if r, ok := f.memo[e]; ok {
+		return r
+	}
+	r := f.Expand(e)
+	f.memo[e] = r
+	return r
 }
 
 // NewFlow indexes the switch statements of the graph's body.
@@ -134,6 +143,21 @@ func (f *Flow) alts(b *cfg.Block, succ int) []cfgq.Fact {
 		}
 	}
 	return Alts(e, succ == 0)
+}
+
+// AltsOf returns the alternatives (at least one holds) known on the edge, as
+// written and, when different, seen through helpers/hoisted locals.
+func (f *Flow) AltsOf(b *cfg.Block, succ int) [][]cfgq.Fact {
+	var out [][]cfgq.Fact
+	if al := f.alts(b, succ); len(al) > 0 {
+		out = append(out, al)
+		if e, ok := b.Nodes[len(b.Nodes)-1].(ast.Expr); ok {
+			if x := f.expand(e); x != e {
+				out = append(out, Alts(x, succ == 0))
+			}
+		}
+	}
+	return out
 }
 
 // Edge builds an AvoidEdge predicate: the edge establishes a fact accepted by
@@ -306,6 +330,25 @@ func Origins(info *types.Info, scope ast.Node, e ast.Expr) []Origin {
 				return
 			}
 		}
+		if sel, ok := e.(*ast.SelectorExpr); ok {
+			// a field of a local struct variable that is only used field by field
+			if defs, ok := localFieldDefs(info, scope, sel); ok {
+				for _, d := range defs {
+					if d.Zero {
+						out = append(out, d)
+						continue
+					}
+					k := len(out)
+					chase(d.Expr)
+					for j := k; j < len(out); j++ {
+						if out[j].Stmt == nil {
+							out[j].Stmt = d.Stmt
+						}
+					}
+				}
+				return
+			}
+		}
 		id, ok := e.(*ast.Ident)
 		if !ok {
 			out = append(out, Origin{Expr: e, Res: -1})
@@ -389,6 +432,94 @@ func Origins(info *types.Info, scope ast.Node, e ast.Expr) []Origin {
 	return out
 }
 
+// localFieldDefs lists the definitions of v.f for a local (non-pointer) struct
+// variable v: assignments `v.f = e`, the field's value in composite literals
+// assigned to v, and the zero value of `var v T`. ok is false when v is a
+// pointer, has its address taken, or is assigned from anything else.
+func localFieldDefs(info *types.Info, scope ast.Node, sel *ast.SelectorExpr) ([]Origin, bool) {
+	id, ok := ast.Unparen(sel.X).(*ast.Ident)
+	if !ok {
+		return nil, false
+	}
+	v, ok := core.ObjOf(info, id).(*types.Var)
+	if !ok || v.IsField() || !(scope.Pos() <= v.Pos() && v.Pos() < scope.End()) {
+		return nil, false
+	}
+	if _, isStruct := v.Type().Underlying().(*types.Struct); !isStruct {
+		return nil, false
+	}
+	var out []Origin
+	good := true
+	fieldOf := func(lit *ast.CompositeLit, st ast.Node) {
+		for _, el := range lit.Elts {
+			kv, ok := el.(*ast.KeyValueExpr)
+			if !ok {
+				good = false
+				return
+			}
+			if k, ok := kv.Key.(*ast.Ident); ok && k.Name == sel.Sel.Name {
+				out = append(out, Origin{Expr: kv.Value, Res: -1, Stmt: st})
+				return
+			}
+		}
+		out = append(out, Origin{Res: -1, Zero: true, Stmt: st})
+	}
+	ast.Inspect(scope, func(n ast.Node) bool {
+		switch x := n.(type) {
+		case *ast.AssignStmt:
+			for i, l := range x.Lhs {
+				if ls, ok := ast.Unparen(l).(*ast.SelectorExpr); ok && IsObj(info, v)(ls.X) && ls.Sel.Name == sel.Sel.Name {
+					if len(x.Lhs) == len(x.Rhs) && (x.Tok == token.ASSIGN) {
+						out = append(out, Origin{Expr: x.Rhs[i], Res: -1, Stmt: x})
+					} else {
+						good = false
+					}
+				}
+				if IsObj(info, v)(l) {
+					if len(x.Lhs) == len(x.Rhs) {
+						if lit, ok := ast.Unparen(x.Rhs[i]).(*ast.CompositeLit); ok {
+							fieldOf(lit, x)
+							continue
+						}
+					}
+					good = false
+				}
+			}
+		case *ast.ValueSpec:
+			for i, nm := range x.Names {
+				if info.Defs[nm] != types.Object(v) {
+					continue
+				}
+				switch {
+				case len(x.Values) == 0:
+					out = append(out, Origin{Res: -1, Zero: true, Stmt: x})
+				case len(x.Values) == len(x.Names):
+					if lit, ok := ast.Unparen(x.Values[i]).(*ast.CompositeLit); ok {
+						fieldOf(lit, x)
+					} else {
+						good = false
+					}
+				default:
+					good = false
+				}
+			}
+		case *ast.UnaryExpr:
+			if x.Op == token.AND && IsObj(info, v)(x.X) {
+				good = false
+			}
+		case *ast.CallExpr:
+			// passed by value is fine; a method with pointer receiver takes the address
+			if ms, ok := ast.Unparen(x.Fun).(*ast.SelectorExpr); ok && IsObj(info, v)(ms.X) {
+				if _, isField := info.Selections[ms]; isField && info.Selections[ms].Kind() != types.FieldVal {
+					good = false
+				}
+			}
+		}
+		return true
+	})
+	return out, good && len(out) > 0
+}
+
 // SoleOrigin returns the single non-zero origin of e, if there is exactly one.
 func SoleOrigin(info *types.Info, scope ast.Node, e ast.Expr) (Origin, bool) {
 	var hit []Origin
@@ -452,12 +583,28 @@ func AllBodies(c *core.Ctx) []MBody {
 		return v.([]MBody)
 	}
 	var out []MBody
+	// unexported functions that nothing refers to any more (their calls were
+	// expanded in place by the loader's helper normalisation) are not code that runs
+	used := map[types.Object]bool{}
+	for _, pk := range c.Pkgs {
+		if pk.TypesInfo == nil {
+			continue
+		}
+		for _, o := range pk.TypesInfo.Uses {
+			if f, ok := o.(*types.Func); ok {
+				used[f.Origin()] = true
+			}
+		}
+	}
 	for _, pk := range c.Pkgs {
 		if pk.ID != pk.PkgPath || pk.TypesInfo == nil || pk.PkgPath == core.MainPkg {
 			continue
 		}
 		for _, b := range ring.Bodies(c, pk.PkgPath) {
 			if strings.HasSuffix(c.Fset.Position(b.Decl.Pos()).Filename, "_test.go") {
+				continue
+			}
+			if fo, ok := pk.TypesInfo.Defs[b.Decl.Name].(*types.Func); ok && !fo.Exported() && !used[fo] && fo.Name() != "init" && fo.Name() != "main" {
 				continue
 			}
 			out = append(out, MBody{b, pk})
@@ -508,17 +655,101 @@ func StartedByGo(sites []GoSite, b MBody) bool {
 	return false
 }
 
-// InLoop reports whether n lies inside a for/range statement of root.
+// RunsOnce recognises a `L: for { ...; break L }` block without a `continue`
+// of its own: syntactically a loop, but its body executes once (the shape the
+// loader's helper normalisation produces, and an idiom for early exit).
+func RunsOnce(path []ast.Node, i int) bool {
+	fs, ok := path[i].(*ast.ForStmt)
+	if !ok || fs.Init != nil || fs.Cond != nil || fs.Post != nil || len(fs.Body.List) == 0 || i == 0 {
+		return false
+	}
+	lab, ok := path[i-1].(*ast.LabeledStmt)
+	if !ok {
+		return false
+	}
+	last, ok := fs.Body.List[len(fs.Body.List)-1].(*ast.BranchStmt)
+	if !ok || last.Tok != token.BREAK || last.Label == nil || last.Label.Name != lab.Label.Name {
+		return false
+	}
+	once := true
+	var walk func(n ast.Node, nested bool)
+	walk = func(n ast.Node, nested bool) {
+		ast.Inspect(n, func(m ast.Node) bool {
+			switch x := m.(type) {
+			case *ast.FuncLit:
+				return false
+			case *ast.ForStmt, *ast.RangeStmt:
+				if m != n {
+					walk(m, true)
+					return false
+				}
+			case *ast.BranchStmt:
+				if x.Tok == token.CONTINUE && (x.Label == nil && !nested || x.Label != nil && x.Label.Name == lab.Label.Name) {
+					once = false
+				}
+			}
+			return true
+		})
+	}
+	walk(fs.Body, false)
+	return once
+}
+
+// InLoop reports whether n lies inside a for/range statement of root (blocks
+// of the form `L: for { ...; break L }` are not loops).
 func InLoop(root, n ast.Node) bool {
-	for _, p := range core.PathTo(root, n) {
+	path := core.PathTo(root, n)
+	for i, p := range path {
 		switch p.(type) {
 		case *ast.ForStmt, *ast.RangeStmt:
-			if p != n {
+			if p != n && !RunsOnce(path, i) {
 				return true
 			}
 		}
 	}
 	return false
+}
+
+// SameVar builds an expression predicate: e denotes the variable obj, directly
+// or through a chain of single-definition copies (`t := obj`) in scope.
+func SameVar(info *types.Info, scope ast.Node, obj types.Object) func(ast.Expr) bool {
+	return func(e ast.Expr) bool {
+		if obj == nil || e == nil {
+			return false
+		}
+		if IsObj(info, obj)(e) {
+			return true
+		}
+		if _, isID := ast.Unparen(e).(*ast.Ident); !isID || scope == nil {
+			return false
+		}
+		// step through `t := u` copies one definition at a time
+		cur := ast.Unparen(e)
+		for step := 0; step < 8; step++ {
+			id, ok := cur.(*ast.Ident)
+			if !ok {
+				return false
+			}
+			if IsObj(info, obj)(id) {
+				return true
+			}
+			var def *Origin
+			n := 0
+			for _, o := range Origins1(info, scope, id) {
+				if o.Zero {
+					continue
+				}
+				n++
+				oc := o
+				def = &oc
+			}
+			if n != 1 || def.Expr == nil || def.Op != 0 || def.Range || def.Res >= 0 || def.Param {
+				return false
+			}
+			cur = ast.Unparen(def.Expr)
+		}
+		return false
+	}
 }
 
 // FieldWrite describes a statement that writes a struct field.
